@@ -236,8 +236,8 @@ def epoch(t):
     try:
         return int(t.value // 1000000000)
     except OverflowError:
-        import math
-        return int(math.floor(t.timestamp()))       # beyond the nanosecond range (years after 2262)
+        # beyond the nanosecond range (before 1678 / after 2262): exact integer arithmetic in microseconds
+        return int(t.as_unit("us").asm8.view("i8")) // 1000000
 
 
 def weekday(sec):
